@@ -10,6 +10,7 @@ import KoordVerif.Proofs.C06ExtPolicyFull
 import KoordVerif.Proofs.C06ExtTakeGen
 import KoordVerif.Proofs.C06ExtTake
 import KoordVerif.Proofs.C06ExtAmpBind
+import KoordVerif.Proofs.C06ExtNumaDrawn
 /-
 C06 — CPU and NUMA allocations are exact, disjoint and within capacity.
 
@@ -346,6 +347,27 @@ example :
   refine ⟨?_, ?_, ?_⟩ <;> intro k <;> simp [cellOf, step, updatePod, releasePod, addPod, findPod, hasPod,
     Ledger.empty, getI, addCell, resSet, relCell, resHas, amplifyCaps, isCpuCell, amplify] <;> (repeat' split) <;> omega
 
+/-- **allocate_numa_drawn**: the premise of `numa_within_capacity` need not be assumed for pods that enter through
+    `Allocate`: on every (node, resource) cell the modelled `Allocate` (allocateResourcesByHint → trim →
+    tryBestToDistributeEvenly over all requested resources, amplified capacities) records at most
+    "capacity − recorded" of the ledger it was computed on.  Hint ids come from a bit mask (distinct); a
+    resource is requested once (Go map) and has a dim below 16 (cell encoding). -/
+theorem allocate_numa_drawn (cfg : NodeCfg) (L : Ledger) (req : AllocReq) (hden : 0 < cfg.den)
+    (hhint : ∀ h, req.hint = some h → h.Nodup) (hreqs : (req.reqs.map (·.1)).Nodup)
+    (hdim : ∀ r ∈ req.reqs, r.1 < 16) (p : PodAlloc) (h : allocate cfg L req = some p) :
+    NumaDrawn (getI cfg.capacity) L (.add p) :=
+  fun _ k => allocate_numa_le cfg L req hden hhint hreqs hdim p h k
+
+-- non-vacuity: ratio 3/2, a pod without cpu bind asking 5000 cpu + 3000 memory over the hint {0, 1}
+example :
+    let cfg : NodeCfg := { topo := (List.range 8).map fun c => { cpu := c, core := c / 2, node := c / 4, socket := 0 },
+                           cpc := 2, cpn := 4, cps := 8, maxRef := 1, most := true, reserved := [],
+                           caps := [(0, 4000), (1, 8000), (16, 4000), (17, 8000)], num := 3, den := 2 }
+    let req : AllocReq := { uid := 1, excl := 0, bind := 0, required := false, cpuBind := false, ncpu := 0,
+                            hint := some [0, 1], reqs := [(0, 5000), (1, 3000)] }
+    (allocate cfg Ledger.empty req).map (·.numa) = some [(0, 2500), (16, 2500), (1, 1000), (17, 2000)] ∧
+    (req.reqs.map (·.1)).Nodup ∧ (∀ r ∈ req.reqs, r.1 < 16) := by decide
+
 /-! ### cpu-bind pods on an amplified node (Proofs/C06ExtAmpBind.lean)
 
 Full statement aimed at (per-NUMA clause of the property, in the unit the capacity is expressed in):
@@ -429,8 +451,11 @@ theorem update_split_counterexample :
   revert this; decide
 
 /-- what is NOT atomic in the code as it is: `Allocate`'s read and the later `Update` are two sections,
-    so TWO scheduling goroutines could hand out the same CPU — the premise "one scheduling goroutine"
-    (scheduling cycles are serialized) of `update_atomic_safe` is needed. -/
+    so TWO scheduling goroutines working on the SAME node ledger could hand out the same CPU — the premise
+    "one scheduling goroutine per node ledger" (`ShapeOK`) of `update_atomic_safe` is needed.  How the source
+    meets it (the only commit of an Allocate result is `Plugin.Reserve`; Reserve runs in the serialized
+    scheduling cycle or in the batch engine's one-worker-per-node loop) is tied to extracted call-site facts in
+    Ties/C06.lean (`tie_commit_sites`, `tie_reserve_runners`). -/
 theorem two_schedulers_counterexample :
     ¬ (∀ (env : Env) (threads : List Thread) (sched : List Nat), 1 ≤ env.maxRef →
         (∀ t ∈ threads, ∀ a ∈ t.prog, isSplit a = false) →
@@ -545,6 +570,16 @@ theorem generators_admissible (ctx : PickCtx) (a : Acc) (hnd : (a.alloc.map (·.
     (∀ l, (spreadCPUs ctx l).Perm l) :=
   ⟨fun byNode ff fe => freeCoresIn_ok ctx a hnd byNode ff fe, fun byNode fe => freeCPUsIn_ok ctx a hnd byNode fe,
    fun fe => freeCPUsAll_ok ctx a hnd fe, fun l => spreadCPUs_perm ctx l⟩
+
+/-- the exclusive-policy filter (a PREFERENCE in the code: every search runs first with `filterExclusive = true`, then
+    without): the candidates of the first pass contain no CPU on a core marked by a PCPULevel-exclusive pod when the pod
+    asks PCPULevel, and none on a NUMA node marked by a NUMANodeLevel-exclusive pod when it asks NUMANodeLevel. -/
+theorem excl_filter_sound (ctx : PickCtx) (a : Acc) (hnd : (a.alloc.map (·.cpu)).Nodup) :
+    (∀ x ∈ freeCPUsAll ctx a true,
+      ∃ i ∈ a.alloc, i.cpu = x ∧ exclPCPU ctx a i = false ∧ exclNUMA ctx a i = false) ∧
+    (∀ byNode, ∀ l ∈ freeCPUsIn ctx a byNode true, ∀ x ∈ l,
+      ∃ i ∈ a.alloc, i.cpu = x ∧ exclPCPU ctx a i = false ∧ (byNode = true → exclNUMA ctx a i = false)) :=
+  ⟨freeCPUsAll_excl_sound ctx a hnd, fun byNode => freeCPUsIn_excl_sound ctx a byNode⟩
 
 /-! ### the glue `Allocate → allocateCPUSet` and the policy check (Model/C06Alloc.lean) -/
 
